@@ -88,12 +88,46 @@ def anyEntry (p : α → Bool) (vis : List α) : Bool := vis.any p
     Go map, `MapConverter.To`, `StructConverter.To` -/
 def firstFailure (err : α → Option ε) (vis : List α) : Option ε := vis.findSome? err
 
-/-- `Config.applyOverrides`: a valid entry is applied; the first invalid one ends the loop
-    (the error is dropped by `init`) and the entries visited so far stay applied -/
+/-- the loop body of `Config.applyOverrides` over a given order of the entries: a valid entry
+    is applied; the first invalid one ends the loop (the error is dropped by `init`) and the
+    entries visited so far stay applied.  BEFORE the repair of finding C05-overrides-abort-order
+    the order was the visiting order of the map (`C05_fixed_overrides_abort_order`); since the
+    repair it is the sorted order of the names (`applyOverridesSorted`) -/
 def applyOverrides : List (String × Option V) → AMap V → AMap V
   | [], m => m
   | (k, some v) :: rest, m => applyOverrides rest (m.set k v)
   | (_, none) :: _, m => m
+
+/-- `AsObjects`, `FromGoType` on a Go map, `MapConverter.To/From`, `StructConverter.To` SINCE
+    their repair (`fix: convert the entries of a map in sorted key order`): the keys are collected
+    and sorted, the entries are converted in that order and the first one that fails decides the
+    error — the error of the smallest failing key (`conversion_perm_invariant`) -/
+def convertSorted (err : String → Option ε) (vis : List String) : Option ε :=
+  firstFailure err (sortedKeys vis)
+
+/-- the same loops BEFORE the repair (finding C05-conversion-error-order, fixed): the entries
+    were converted in visiting order (`C05_fixed_conversion_error_order`) -/
+def preFixConvert (err : String → Option ε) (vis : List String) : Option ε := firstFailure err vis
+
+/-- `compileFunc`'s defaults SINCE its repair (`fix: report the first unsupported parameter
+    default in declaration order`): the PARAMETERS are walked in declaration order and each
+    one's default is looked up in the map (`vis` = the map in the adversary's visiting order,
+    read only through lookups); the first parameter whose default is unsupported decides -/
+def funcDefaults (err : D → Option ε) (params : List String) (vis : List (String × D)) : Option ε :=
+  let m : AMap D := foldInsert (fun _ _ => true) (fun _ v => v) vis AMap.empty
+  firstFailure (fun p => (m p).bind err) params
+
+/-- the same loop BEFORE the repair (finding C05-func-defaults-error-order, fixed): it ranged
+    over the defaults map (`C05_fixed_func_defaults_error_order`) -/
+def preFixFuncDefaults (err : D → Option ε) (_params : List String) (vis : List (String × D)) : Option ε :=
+  firstFailure (fun kv => err kv.2) vis
+
+/-- `Config.applyOverrides` SINCE its repair (`fix: apply global overrides in sorted order of
+    their names`): the names are collected and sorted, every value is looked up in the map, and
+    the loop still ends at the first invalid value (the error is still dropped by `init`) -/
+def applyOverridesSorted (vis : List (String × Option V)) (m0 : AMap V) : AMap V :=
+  let m : AMap (Option V) := foldInsert (fun _ _ => true) (fun _ v => v) vis AMap.empty
+  applyOverrides ((sortedKeys (vis.map (·.1))).map fun k => (k, (m k).getD none)) m0
 
 /-- `Map.StringKeys`, `ast.Map.String`, the emission of `compileMap` (and, before their repair,
     `VirtualOS.Environ` and `MockFS.ReadDir`): the result lists the entries in visiting order -/
@@ -1188,7 +1222,6 @@ def mapSites : List (String × Nat × String × Bool × SiteClass) := [
   ("ast.Map.String", 0, "append,call", false, .visitingOrder "C05-map-literal-order"),
   ("builtins.All", 0, "call,return", false, .quantifier),
   ("builtins.Any", 0, "call,return", false, .quantifier),
-  ("compiler.Compiler.compileFunc", 0, "call,indexwrite,mapwrite,return", false, .firstFailure "C05-func-defaults-error-order"),
   ("compiler.Compiler.compileMap", 0, "call,emit,return", false, .visitingOrder "C05-map-literal-order"),
   ("compiler.definitionFromSymbolTable", 0, "call,mapwrite", false, .insertFold),
   ("compiler.symbolTableFromDefinition", 0, "call,mapwrite", false, .insertFold),
@@ -1199,8 +1232,6 @@ def mapSites : List (String × Nat × String × Bool × SiteClass) := [
   ("modules/http.HttpRequest.GetAttr", 0, "call,mapwrite", false, .insertFold),
   ("modules/http.HttpRequest.Header", 0, "call,mapwrite", false, .insertFold),
   ("modules/http.HttpResponse.Header", 0, "call,mapwrite", false, .insertFold),
-  ("object.AsObjects", 0, "call,mapwrite,return", false, .firstFailure "C05-conversion-error-order"),
-  ("object.FromGoType", 0, "call,mapwrite,return", false, .firstFailure "C05-conversion-error-order"),
   ("object.GoType.attrMap", 0, "mapwrite", false, .insertFold),
   ("object.Keys", 0, "append", true, .sortedAfter),
   ("object.Map.Copy", 0, "mapwrite", false, .insertFold),
@@ -1209,8 +1240,6 @@ def mapSites : List (String × Nat × String × Bool × SiteClass) := [
   ("object.Map.SortedKeys", 0, "append", true, .sortedAfter),
   ("object.Map.StringKeys", 0, "append", false, .sortedByConsumer),
   ("object.Map.Update", 0, "mapwrite", false, .insertFold),
-  ("object.MapConverter.From", 0, "call,mapwrite,return", false, .firstFailure "C05-conversion-error-order"),
-  ("object.MapConverter.To", 0, "call,return", false, .firstFailure "C05-conversion-error-order"),
   ("object.NewBuiltinsModule", 0, "mapwrite", false, .insertFold),
   ("object.NewBuiltinsModule", 1, "", false, .perEntry),
   ("object.Set.Difference", 0, "mapwrite", false, .insertFold),
@@ -1219,10 +1248,10 @@ def mapSites : List (String × Nat × String × Bool × SiteClass) := [
   ("object.Set.SortedItems", 0, "append", true, .sortedAfter),
   ("object.Set.Union", 0, "mapwrite", false, .insertFold),
   ("object.Set.Union", 1, "mapwrite", false, .insertFold),
-  ("object.StructConverter.To", 0, "call,return", false, .firstFailure "C05-conversion-error-order"),
   ("object.newGoType", 0, "mapwrite", true, .insertFold),
   ("object.newGoType", 1, "mapwrite", true, .insertFold),
   ("object.newGoType", 2, "append", true, .sortedAfter),
+  ("object.sortedMapKeys", 0, "append", true, .sortedAfter),
   ("os.MockFS.ReadDir", 0, "append,call", true, .sortedAfter),
   ("os.VirtualOS.Environ", 0, "append", true, .sortedAfter),
   ("os.VirtualOS.findMount", 0, "call,return", false, .maxSelect),
@@ -1234,7 +1263,7 @@ def mapSites : List (String × Nat × String × Bool × SiteClass) := [
   ("risor.Config.VMOpts", 0, "append", false, .sortedByConsumer),
   ("risor.Config.applyDefaultGlobals", 0, "mapwrite", false, .insertFold),
   ("risor.Config.applyDenylist", 0, "call,mapdelete", false, .deleteFold),
-  ("risor.Config.applyOverrides", 0, "call,mapwrite,return", false, .firstFailure "C05-overrides-abort-order"),
+  ("risor.Config.applyOverrides", 0, "append", true, .sortedAfter),
   ("risor.DefaultGlobals", 0, "mapwrite", false, .insertFold),
   ("risor.DefaultGlobals", 1, "mapwrite", false, .insertFold),
   ("risor.WithGlobals", 0, "mapwrite", false, .insertFold),
@@ -1254,6 +1283,23 @@ def mapSites : List (String × Nat × String × Bool × SiteClass) := [
 def preFixSites : List (String × Nat × String × Bool × SiteClass) := [
   ("os.MockFS.ReadDir", 0, "append,call", false, .visitingOrder "C05-mockfs-readdir-order"),
   ("os.VirtualOS.Environ", 0, "append", false, .visitingOrder "C05-virtualos-environ-order")
+]
+
+/-- the rows of the first-failure loops repaired by `fix: report the first unsupported parameter
+    default in declaration order`, `fix: apply global overrides in sorted order of their names`
+    and `fix: convert the entries of a map in sorted key order`, as they were BEFORE (a range
+    over the Go map that returns at the first failing entry).  Since the repairs compileFunc,
+    AsObjects, FromGoType, MapConverter.To/From and StructConverter.To no longer range over a
+    map at all (they walk the parameter list / `SortedKeys()` / `sortedMapKeys`), and
+    applyOverrides only collects the names it then sorts (`C05_fixed_first_failure_sites`) -/
+def preFixFirstFailureSites : List (String × Nat × String × Bool × SiteClass) := [
+  ("compiler.Compiler.compileFunc", 0, "call,indexwrite,mapwrite,return", false, .firstFailure "C05-func-defaults-error-order"),
+  ("object.AsObjects", 0, "call,mapwrite,return", false, .firstFailure "C05-conversion-error-order"),
+  ("object.FromGoType", 0, "call,mapwrite,return", false, .firstFailure "C05-conversion-error-order"),
+  ("object.MapConverter.From", 0, "call,mapwrite,return", false, .firstFailure "C05-conversion-error-order"),
+  ("object.MapConverter.To", 0, "call,return", false, .firstFailure "C05-conversion-error-order"),
+  ("object.StructConverter.To", 0, "call,return", false, .firstFailure "C05-conversion-error-order"),
+  ("risor.Config.applyOverrides", 0, "call,mapwrite,return", false, .firstFailure "C05-overrides-abort-order")
 ]
 
 /-! ## Part 5 — walks over a container whose elements can fail one by one
@@ -1502,5 +1548,52 @@ def pickExtension (exts : List String) (present : String → Bool) : Option Stri
     wins (`arrival` = the order in which the probes finish: scheduling, latency per file) -/
 def pickExtensionRaced (arrival : List Nat) (exts : List String) (present : String → Bool) : Option String :=
   (applyPerm arrival exts).find? present
+
+/-! ## Part 9 — declarations that introduce several names at once
+
+`from m import a, b as c, d`, `a, b := [1, 2]`, `func f(p, q) {…}`: every name gets the next free
+slot of the symbol table of its scope (a global slot at top level, a local slot inside a
+function) unless it is already there.  The property demands that the slots follow the SOURCE:
+`compileFromImport` builds a Go map name → alias, but declares the names by walking the import
+list, so the map's visiting order (the adversary's parameter `vis`) is never consulted. -/
+
+/-- get-or-insert: a name that is already in the table keeps its slot, a new one is appended -/
+def declare (tab : List String) (n : String) : List String := if tab.contains n then tab else tab ++ [n]
+
+/-- the names are declared one after the other in the order of the list -/
+def declareAll (ns : List String) (tab : List String) : List String := ns.foldl declare tab
+
+/-- `aliases[name]` after the map was filled in source order: the LAST alias written for a name -/
+def aliasOf (ims : List (String × String)) (name : String) : String :=
+  match ims.reverse.find? (fun p => p.1 == name) with
+  | some p => p.2
+  | none => name
+
+/-- the names one statement declares, in source order (for a from-import: the alias the map
+    holds for each imported name; for the other forms name = alias) -/
+def declNames (ims : List (String × String)) : List String := ims.map fun p => aliasOf ims p.1
+
+/-- one declaring statement as the code compiles it: the table afterwards and the operands of
+    the stores (the slot of each declared name, in source order).  `vis` is the adversary's
+    visiting order of the alias map: the loop walks the import list, not the map -/
+def declStmt (_vis : List Nat) (ims : List (String × String)) (tab : List String) : List String × List Nat :=
+  let ns := declNames ims
+  let tab' := declareAll ns tab
+  (tab', ns.map tab'.idxOf)
+
+/-- the forbidden variant: the names are declared by ranging over the alias map -/
+def declStmtMapOrdered (vis : List Nat) (ims : List (String × String)) (tab : List String) : List String × List Nat :=
+  let ns := declNames ims
+  let tab' := declareAll (applyPerm vis ns.eraseDups) tab
+  (tab', ns.map tab'.idxOf)
+
+/-- a sequence of declaring statements of one scope, each with its own adversary annotation -/
+def declProgram (step : List Nat → List (String × String) → List String → List String × List Nat) :
+    List (List Nat × List (String × String)) → List String → List String × List (List Nat)
+  | [], tab => (tab, [])
+  | (vis, ims) :: rest, tab =>
+    let r := step vis ims tab
+    let r' := declProgram step rest r.1
+    (r'.1, r.2 :: r'.2)
 
 end Risor.C05
